@@ -112,5 +112,15 @@ func DrawGraph(rt *rapid.T) History {
 		o.ID = uint64(i + 1)
 		h.Steps = append(h.Steps, Step{Op: &o})
 	}
+	// one graph in four is interrupted by a Flush (all instances, or one): held operations are
+	// not entries - they stay held and must still be answered when their references arrive
+	if len(h.Steps) > 1 && rapid.IntRange(0, 3).Draw(rt, "flush?") == 0 {
+		at := rapid.IntRange(1, len(h.Steps)-1).Draw(rt, "flush-at")
+		fl := Step{Flush: append([]string(nil), NIs...)}
+		if rapid.Bool().Draw(rt, "one-instance") {
+			fl.Flush = []string{NIs[rapid.IntRange(0, 2).Draw(rt, "flush-ni")]}
+		}
+		h.Steps = append(h.Steps[:at], append([]Step{fl}, h.Steps[at:]...)...)
+	}
 	return h
 }
